@@ -19,6 +19,7 @@ func init() {
 	c19.Harnesses = append(c19.Harnesses,
 		&HarnessSpec{Name: "verifHarnessC11Refresh", Pkg: "client/setec", Stubs: clientStubs, Params: map[string]int{"names": 2}, ThoroughParams: map[string]int{"names": 3},
 			ExpectReach: []string{"end-ok"}, Desc: "expiry only drops stale, unreferenced, undeclared secrets at a poll"},
+		ch("verifHarnessC12ApplyUpdates", map[string]int{"names": 2}, map[string]int{"names": 3}, []string{"end"}, "applyUpdates with an arbitrary update set (also one computed before a handle was handed out): a name with a handle or watcher is never dropped"),
 		&HarnessSpec{Name: "verifHarnessC19HasExpired", Pkg: "client/setec", Stubs: clientStubs, Params: map[string]int{}, ExpectReach: []string{"end"},
 			Desc: "hasExpired == (undeclared and age configured and now - lastAccess > age) over all stamps"},
 		&HarnessSpec{Name: "verifHarnessC19HandleStamps", Pkg: "client/setec", Stubs: clientStubs, Params: map[string]int{"names": 2}, ThoroughParams: map[string]int{"names": 3},
